@@ -60,7 +60,9 @@ fn check_all(d: &Decl, body: &[&str]) -> Vec<String> {
         for v in &d.enums[&r.enum_id].variants {
             let lines: Vec<&&str> = body.iter().filter(|l| is_list_line(l) && first_word(l) == v.name).collect();
             if r.hidden {
-                if !lines.is_empty() {
+                // (a visible member may answer to the same name; then the line belongs to that one)
+                let shadowed = d.roots.iter().any(|o| !o.hidden && o.enum_id != "RAW" && d.enums[&o.enum_id].variants.iter().any(|ov| ov.name == v.name));
+                if !lines.is_empty() && !shadowed {
                     errs.push(format!("command {:?} of a hidden group is listed", v.name));
                 }
                 continue;
